@@ -78,7 +78,11 @@ class Meaning:
                     others.update(getattr(d, "meshes", (d,)))
             except Exception:      # noqa: BLE001
                 pass
+        # ... and the meshes an integral intersects (extra_domain_integral_type_map of a multi-mesh measure)
+        for itg in form.integrals():
+            others.update(itg.extra_domain_integral_type_map())
         others = sorted((m for m in others if m not in integ), key=skey)
+        self.skey = skey
         self.mesh_rank = {m.ufl_id(): k for k, m in enumerate(list(integ) + others)}
 
     def fs(self, V):
@@ -124,8 +128,16 @@ class Meaning:
             d = itg.ufl_domain()
             out.append((self.etree(itg.integrand(), memo),
                         ("Mesh", self.mesh_rank[d.ufl_id()], repr(d.ufl_coordinate_element())),
-                        itg.integral_type(), sid_key(itg.subdomain_id()), canon_md_model(itg.metadata())))
+                        itg.integral_type(), self.xdoms(itg), sid_key(itg.subdomain_id()),
+                        canon_md_model(itg.metadata())))
         return tuple(out)
+
+    def xdoms(self, itg):
+        """[xdoms] of the model: (domain data, integral type) of every intersected mesh, in the model's own
+        domain order."""
+        xm = itg.extra_domain_integral_type_map()
+        return tuple((("Mesh", self.mesh_rank[x.ufl_id()], repr(x.ufl_coordinate_element())), xm[x])
+                     for x in sorted(xm, key=self.skey))
 
 
 def sid_key(s):
@@ -407,6 +419,32 @@ def family(k, rng):
         fx_ = ufl.Coefficient(Vx, count=f.count())
         fm = (ufl.TrialFunction(Vx) * ufl.TestFunction(Vx) + fx_ * ufl.CellVolume(mx) * ufl.TestFunction(Vx)) * ufl.dx(domain=mx)
         out.append(("domain-" + nm, fm, "domains"))
+    # multi-mesh measures: the integral type used on every intersected mesh is part of the compiled meaning
+    qC = ufl.Coefficient(c.V(mesh=mC), count=q.count() + 1000)
+    prim = pick_k(k, ["ds", "dx", "dS"])
+
+    def xform(pairs, coefs=(q,), prim=prim, sid=sid0):
+        ms = ufl.Measure(prim, c.m, intersect_measures=tuple(ufl.Measure(t, mx) for t, mx in pairs))
+        e = f * vt
+        for cf in coefs:
+            e = e * cf
+        return e * ms(sid)
+
+    for nm, fm in (("none", xform(())), ("B-ds", xform((("ds", mB),))), ("B-ds-rebuilt", xform((("ds", mB),))),
+                   ("B-dS", xform((("dS", mB),))), ("B-dx", xform((("dx", mB),))),
+                   ("C-ds", xform((("ds", mC),))), ("C-dS", xform((("dS", mC),))),
+                   ("B-ds-other-primary", xform((("ds", mB),), prim="dx" if prim != "dx" else "ds")),
+                   ("B-ds-other-subdomain", xform((("ds", mB),), sid=7)),
+                   ("B-ds-no-coefficient", xform((("ds", mB),), coefs=())),
+                   ("C-ds-no-coefficient", xform((("ds", mC),), coefs=())),
+                   ("C-dS-no-coefficient", xform((("dS", mC),), coefs=())),
+                   ("B-ds-C-dS", xform((("ds", mB), ("dS", mC)))),
+                   ("C-dS-B-ds-listed-in-reverse", xform((("dS", mC), ("ds", mB)))),
+                   ("B-dS-C-ds", xform((("dS", mB), ("ds", mC)))),
+                   ("B-ds-C-ds", xform((("ds", mB), ("ds", mC)))),
+                   ("B-ds-C-dS-both-coefficients", xform((("ds", mB), ("dS", mC)), coefs=(q, qC))),
+                   ("B-dS-C-ds-both-coefficients", xform((("dS", mB), ("ds", mC)), coefs=(q, qC)))):
+        out.append(("intersect-" + nm, fm, "xdoms"))
     out.append(("subdomain-id", build(sid=3 if sid0 != 3 else 4), "diff"))
     out.append(("subdomain-tuple", build(sid=(1, 3)), "diff"))
     out.append(("integral-type", build(itype="ds"), "diff"))
@@ -454,7 +492,7 @@ def main(run):
     sig_of, mean_of = {}, {}
     term_pairs = {}      # model thd -> set(real data) ; and reverse
     rev_pairs = {}
-    coq_md, coq_expr = [], []
+    coq_md, coq_expr, coq_xd = [], [], []
     mp = L.Mapper()
 
     def real_data_key(x):
@@ -529,6 +567,12 @@ def main(run):
             elif same_sig != same_mean:
                 rec["expected"] = f"model meaning equal = {same_mean}, real signature equal = {same_sig}"
                 viol.append(("model-disagreement", rec))
+        # Coq cases: integrals that agree in every other component of the meaning -> their [xdoms] token lists
+        # are equal in the model exactly when the real signatures are
+        xrows = [r for r in rows if r[2] == "xdoms"]
+        for (n1, f1, t1, m1, s1, M1), (n2, f2, t2, m2, s2, M2) in itertools.combinations(xrows, 2):
+            if len(m1) == 1 and len(m2) == 1 and m1[0][:3] + m1[0][4:] == m2[0][:3] + m2[0][4:]:
+                coq_xd.append((m1[0][3], m2[0][3], s1 == s2))
         # Coq cases from this family: metadata pairs and integrand pairs against the base
         for (n2, f2, t2, m2, s2, M2) in rows[1:]:
             coq_md.append((base[1].integrals()[0].metadata(), f2.integrals()[0].metadata(),
@@ -564,7 +608,7 @@ def main(run):
         else:
             body.append(f"Example md{n} : {mdfun} {ga} <> {mdfun} {gb}.\nProof. vm_compute. discriminate. Qed.")
     files = []
-    text = L.HEADER.replace("NArith", "NArith ZArith").replace("Props.C29_model.", "Props.C29_model Props.C11_model.") + \
+    text = L.header(("Props.C29_model", "Props.C11_model"), zarith=True) + \
         "\n".join(em.lines) + "\n\n" + "\n".join(body) + "\n"
     p = os.path.join(vlib.GEN, "C11_md.v")
     vlib.write_if_changed(p, text)
@@ -580,11 +624,27 @@ def main(run):
             else:
                 body.append(f"Example e{s + n} : strip {em.name(ta)} <> strip {em.name(tb)}.\n"
                             "Proof. vm_compute. intro E. discriminate E. Qed.")
-        text = L.HEADER.replace("Props.C29_model.", "Props.C29_model Props.C11_model.") + \
+        text = L.header(("Props.C29_model", "Props.C11_model")) + \
             "\n".join(em.lines) + "\n\n" + "\n".join(body) + "\n"
         p = os.path.join(vlib.GEN, f"C11_expr_{s // per}.v")
         vlib.write_if_changed(p, text)
         files.append(p)
+    body = []
+
+    def xd_gallina(xd):
+        return "[" + "; ".join(f'({fsid(("dom", d))}%N, "{t}"%string)' for d, t in xd) + "]"
+
+    for n, (xa, xb, real_eq) in enumerate(coq_xd):
+        la, lb = (f"(map (xdom_tok unit) {xd_gallina(x)})" for x in (xa, xb))
+        if real_eq:
+            body.append(f"Example xd{n} : {la} = {lb}.\nProof. vm_compute. reflexivity. Qed.")
+        else:
+            body.append(f"Example xd{n} : {la} <> {lb}.\nProof. vm_compute. intro E. discriminate E. Qed.")
+    if body:
+        p = os.path.join(vlib.GEN, "C11_xdoms.v")
+        vlib.write_if_changed(p, L.header(("Props.C29_model", "Props.C11_model")) + "\n".join(body) + "\n")
+        files.append(p)
+    run.extra["extra_domain_map_pairs_in_coq"] = len(coq_xd)
     hand = vlib.coqc("Props/C11_model.v")
     run.add_coq_result(hand)
     if not hand.ok:
@@ -637,7 +697,7 @@ def main(run):
 
 
 def strip_md(mean):
-    return tuple(m[:4] for m in mean)
+    return tuple(m[:5] for m in mean)
 
 
 def has_array(md):
